@@ -262,18 +262,63 @@ def gen(tier):
     return uniq, info
 
 
+INT_EXPRS = {
+    # name -> (cola expression of operators A (integer Dense), D (integer Diagonal), F (float64 Dense); the same expression on the matrices)
+    "2.5*A": lambda A, D, F: 2.5 * A, "A*2.5": lambda A, D, F: A * 2.5, "A/2": lambda A, D, F: A / 2, "A/0.5": lambda A, D, F: A / 0.5,
+    "-A": lambda A, D, F: -A, "3*A": lambda A, D, F: 3 * A, "(1+2j)*A": lambda A, D, F: (1 + 2j) * A, "np.float32(0.5)*A": lambda A, D, F: np.float32(0.5) * A,
+    "2.5*D": lambda A, D, F: 2.5 * D, "D/4": lambda A, D, F: D / 4, "A+F": lambda A, D, F: A + F, "A-0.5*F": lambda A, D, F: A - 0.5 * F,
+    "A@F": lambda A, D, F: A @ F, "A@D": lambda A, D, F: A @ D, "kron(A,F)": lambda A, D, F: cola.kron(A, F), "kron(D,A)": lambda A, D, F: cola.kron(D, A),
+    "kronsum(A,F)": lambda A, D, F: cola.kronsum(A, F), "block_diag(A,F)": lambda A, D, F: cola.block_diag(A, F), "0.5*(A+D)": lambda A, D, F: 0.5 * (A + D),
+    "(A@D)/3": lambda A, D, F: (A @ D) / 3, "A.T*1.5": lambda A, D, F: A.T * 1.5,
+}
+
+
+def run_int(case, seed):
+    """integer-dtype operators (Dense / Diagonal built from integer arrays) in scalar and mixed algebra: NumPy's value and dtype are the reference"""
+    _, name = case
+    g = P.rng(seed, "c03int")
+    Mi, di = P.ints(g, (3, 3), -4, 4).astype(np.int64), P.ints(g, (3, ), -4, 4, nonzero=True).astype(np.int64)
+    Mf = P.ints(g, (3, 3), -3, 3).astype(np.float64) / 2
+    fn = INT_EXPRS[name]
+    vio = []
+    with warnings.catch_warnings():
+        warnings.simplefilter("ignore")
+
+        import scipy.linalg as sl
+        ns = {"np": np, "A": Mi, "D": np.diag(di), "F": Mf, "kron": np.kron, "block_diag": sl.block_diag,
+              "kronsum": lambda a, b: np.kron(a, np.eye(b.shape[0])) + np.kron(np.eye(a.shape[0]), b)}
+        want = eval(name, ns)  # the same source text, evaluated on the matrices
+        try:
+            op = fn(ops.Dense(Mi.copy()), ops.Diagonal(di.copy()), ops.Dense(Mf.copy()))
+            got = np.asarray(op.to_dense())
+            x = np.array([1.5, -2.0, 0.5] * (want.shape[1] // 3))
+            y = np.asarray(op @ x)
+            if got.shape != want.shape or not np.allclose(got, want, rtol=1e-12, atol=1e-12):
+                vio.append({"key": f"C03|integer-operator|to_dense|value|{name}", "what": f"{name} on integer-dtype operators: wrong matrix", "detail": {"got": short(got), "want": short(want)}})
+            elif not np.allclose(y, want @ x, rtol=1e-12, atol=1e-12):
+                vio.append({"key": f"C03|integer-operator|matmul|value|{name}", "what": f"({name}) @ x on integer-dtype operators: wrong product", "detail": {"got": short(y), "want": short(want @ x)}})
+            elif np.dtype(op.dtype).kind != np.dtype(want.dtype).kind:
+                vio.append({"key": f"C03|integer-operator|dtype-kind|{name}", "what": f"{name}: operator dtype {op.dtype}, NumPy gives {want.dtype}", "detail": {"got": str(op.dtype), "want": str(want.dtype)}})
+        except Exception as e:
+            vio.append({"key": f"C03|integer-operator|exc:{type(e).__name__}|{name}", "what": f"{name} on integer-dtype operators raised", "detail": {"msg": str(e)[:300]}})
+    return {"transitions": 3, "outcome": f"int:{name}:{len(vio)}", "violations": vio}
+
+
 def cases(tier, seed):
     terms, info = gen(tier)
+    info["integer_operator_expressions"] = len(INT_EXPRS)
     _DESC.update(info)
-    return terms
+    return terms + [["INT", n] for n in INT_EXPRS]
 
 
 def run_case(term, seed):
+    if term[0] == "INT":
+        return run_int(term, seed)
     return CHECKER.run(term, seed)
 
 
 def case_signature(case):
-    return sig(case)
+    return "INT," + case[1] if case[0] == "INT" else sig(case)
 
 
 def describe(tier, seed):
